@@ -26,6 +26,12 @@ def ck(k):
 
 
 @m.memento_function(cluster="c", version="1")
+def ck2(k):
+    # another call publishing (a different value) under the same override key as ck(k)
+    return KeyOverrideResult(rt.produce("ck2", k), "ov/k%d" % k)
+
+
+@m.memento_function(cluster="c", version="1")
 def cp(p, k):
     return rt.produce("cp", k)
 
@@ -47,5 +53,5 @@ class _Presented:
         return cp.memento(7, k)
 
 
-FUNCS = {"cv": cv, "cv2": cv2, "cc": cc, "ck": ck, "cp": _Presented("plain"), "cp.partial": _Presented("partial"),
+FUNCS = {"cv": cv, "cv2": cv2, "cc": cc, "ck": ck, "ck2": ck2, "cp": _Presented("plain"), "cp.partial": _Presented("partial"),
          "cp.kw": _Presented("kw")}
